@@ -96,6 +96,8 @@ impl MultiPeerBackend for RepSocketBackend {
         let conn = next_conn();
         let registered =
             crate::backend::register(&self.peers, peer_id, Peer::new(conn, send_queue)).await;
+        #[cfg(feature = "verif-hooks")]
+        crate::__verif::yield_point("reg.after_table").await;
         self.fair_queue_inner
             .lock()
             .insert_conn(peer_id.clone(), conn, recv_queue);
